@@ -266,9 +266,90 @@ fn bfs_cfgs(kind: Kind, thorough: bool) -> Vec<(Cfg, usize)> {
     v
 }
 
+/// C12, structural part: two PutResults compare equal exactly when they are the same variant
+/// with equal payloads (decided here by independent destructuring); Clone/Copy preserve that.
+pub fn putresult_structural(out: &mut ShardOut) {
+    use caches::PutResult as P;
+    fn mkv(variant: u8, a: u32, b: u32, c: u32) -> P<u32, u32> {
+        match variant {
+            0 => P::Put,
+            1 => P::Update(a),
+            2 => P::Evicted { key: a, value: b },
+            _ => P::EvictedAndUpdate { evicted: (a, b), update: c },
+        }
+    }
+    fn parts(p: &P<u32, u32>) -> (u8, Vec<u32>) {
+        match p {
+            P::Put => (0, vec![]),
+            P::Update(a) => (1, vec![*a]),
+            P::Evicted { key, value } => (2, vec![*key, *value]),
+            P::EvictedAndUpdate { evicted, update } => (3, vec![evicted.0, evicted.1, *update]),
+        }
+    }
+    let vals = [0u32, 1, 2];
+    let mut all = vec![];
+    for v in 0..4u8 {
+        for a in vals {
+            for b in vals {
+                for c in vals {
+                    all.push(mkv(v, a, b, c));
+                }
+            }
+        }
+    }
+    let mut bad: Option<String> = None;
+    for x in &all {
+        for y in &all {
+            let exp = parts(x) == parts(y);
+            let got = guarded(|| (x == y, y == x, !(x != y)));
+            out.cov.monitored += 1;
+            out.cov.triples.insert(format!("putresult-eq|{}|{}|{}", parts(x).0, parts(y).0, exp));
+            match got {
+                Ok((a, b, c)) if a == exp && b == exp && c == exp => {}
+                other => {
+                    bad = Some(format!("{:?} == {:?} evaluates to {:?}, structural equality says {}", x, y, other, exp));
+                }
+            }
+        }
+        let cl = x.clone();
+        let cp = *x;
+        if parts(&cl) != parts(x) || parts(&cp) != parts(x) || cl != *x || cp != *x {
+            bad = Some(format!("clone/copy of {:?} is {:?}/{:?}", x, cl, cp));
+        }
+    }
+    // heap-owning payloads: clone must be deep-equal and independent
+    let s = |x: &str| x.to_string();
+    let owned: Vec<P<String, String>> = vec![P::Put, P::Update(s("a")), P::Evicted { key: s("k"), value: s("v") }, P::EvictedAndUpdate { evicted: (s("k"), s("v")), update: s("u") }, P::Evicted { key: s("k"), value: s("w") }, P::EvictedAndUpdate { evicted: (s("k"), s("v")), update: s("x") }];
+    for (i, x) in owned.iter().enumerate() {
+        let c = x.clone();
+        if c != *x {
+            bad = Some(format!("clone of {:?} compares unequal", x));
+        }
+        for (j, y) in owned.iter().enumerate() {
+            if (x == y) != (i == j) {
+                bad = Some(format!("{:?} == {:?} is {}", x, y, x == y));
+            }
+        }
+    }
+    if let Some(d) = bad {
+        out.add(Found {
+            v: Violation { prop: "C12".into(), rule: "putresult-structural".into(), sig: "C12|putresult-structural".into(), detail: d, step: 0 },
+            cfg: Cfg::lru(1),
+            kt: KeyType::Tracked,
+            ops: vec![],
+            universe: vec![],
+            seeds: [0; 4],
+            extra: BTreeMap::new(),
+        });
+    }
+}
+
 /// the engine-based check of one property on one shard
 pub fn engine_suite(ctx: &Ctx) -> ShardOut {
     let mut out = ShardOut::default();
+    if ctx.prop == "C12" && ctx.shard == 0 {
+        putresult_structural(&mut out);
+    }
     let prop = ctx.prop.as_str();
     let props = props_for(prop);
     let kinds = kinds_for(prop);
